@@ -155,6 +155,9 @@ class QRCode(Generic[GenericImage]):
         :param fit: If ``True`` (or if a size has not been provided), find the
             best fit for the data to avoid data overflow errors.
         """
+        # The encoded data depends on the version and error correction level,
+        # which may have been changed since the last time it was built.
+        self.data_cache = None
         if fit or (self.version is None):
             self.best_fit(start=self.version)
         if self.mask_pattern is None:
